@@ -12,7 +12,7 @@ from ..loader import AnalysisError, ekey
 from ..norm import atom_of, const_value, is_none
 from ..dataflow import Flow
 from .. import tables
-from .common import mentions, short, guards_of, param_keys_in, assigned_names
+from .common import capacity_fields, mentions, short, guards_of, param_keys_in, assigned_names
 
 RANDOM_KEYS = set(k for (k, _r) in tables.RANDOM_OPTION_KEYS)
 
@@ -24,7 +24,7 @@ def _growing_locals(eng, fi, cfg):
         st = d["ast"]
         if d["kind"] == "stmt" and isinstance(st, ast.Assign) and len(st.targets) == 1 and isinstance(st.targets[0], ast.Name):
             v = st.value
-            if isinstance(v, ast.Compare) and len(v.ops) == 1 and "npt()" in ekey(v.left) and "num_pts" in ekey(v.comparators[0]):
+            if isinstance(v, ast.Compare) and len(v.ops) == 1 and "npt()" in ekey(v.left) and ekey(v.comparators[0]).split(".")[-1] in capacity_fields(eng):
                 out[st.targets[0].id] = "finished" if isinstance(v.ops[0], (ast.GtE, ast.Gt, ast.Eq)) else "growing"
     return out
 
@@ -41,7 +41,7 @@ def _is_random_guard(eng, fi, cfg, at, glocals):
         kind = glocals[at.lhs.id]
         if (kind == "finished" and at.op == "false") or (kind == "growing" and at.op == "truth"):
             return "still growing (non-default growing.ndirs_initial / restarts.increase_npt)"
-    if at.op == "lt" and "npt()" in ekey(at.lhs) and "num_pts" in ekey(at.rhs):
+    if at.op == "lt" and "npt()" in ekey(at.lhs) and ekey(at.rhs).split(".")[-1] in capacity_fields(eng):
         return "still growing (non-default growing.ndirs_initial / restarts.increase_npt)"
     return None
 
@@ -144,10 +144,8 @@ def rule_random_defaults(eng, rep, rule="C19-1b.random-options-are-off-by-defaul
     site = eng.where(init)
     # the precondition of the deterministic initialiser
     ci = eng.fn("controller.Controller.initialise_coordinate_directions")
-    pre = None
-    for node in eng.prog.own_nodes(ci):
-        if isinstance(node, ast.Assert) and isinstance(node.test, ast.Compare) and len(node.test.ops) == 1 and "num_pts" in ekey(node.test.left) and isinstance(node.test.ops[0], (ast.LtE, ast.Lt)):
-            pre = node.test
+    from .common import coordinate_precondition
+    pre = coordinate_precondition(eng)
     for (key, _r) in tables.RANDOM_OPTION_KEYS:
         d = defaults.get(key)
         if d is None:
@@ -163,7 +161,10 @@ def rule_random_defaults(eng, rep, rule="C19-1b.random-options-are-off-by-defaul
             # default is True exactly when the deterministic initialiser's precondition fails:  cond  ==  not (npt <= K)
             t = d.test
             def norm(e):
-                return ekey(e).replace("self.n()", "n").replace("self.model.num_pts", "npt").replace(" ", "")
+                t_ = ekey(e).replace("self.n()", "n").replace(" ", "")
+                for cf in capacity_fields(eng):
+                    t_ = t_.replace("self.model.%s" % cf, "npt")
+                return t_
             if isinstance(t, ast.Compare) and len(t.ops) == 1:
                 exact = isinstance(t.ops[0], ast.Gt) and isinstance(pre.ops[0], ast.LtE) and norm(t.left) == norm(pre.left) and norm(t.comparators[0]) == norm(pre.comparators[0])
                 exact = exact or (isinstance(t.ops[0], ast.GtE) and isinstance(pre.ops[0], ast.Lt) and norm(t.left) == norm(pre.left) and norm(t.comparators[0]) == norm(pre.comparators[0]))
